@@ -78,7 +78,7 @@ def run(rep, maxlen, seed, quote_strict=True):
             constants={"MaxLen": maxlen, "DoExport": True, "QuoteStrict": quote_strict},
             invariants=["Sound", "Complete", "Lossless", "NoOverlap", "AtMostOneTilde", "Progress", "BlankNeutral", "Export"],
         )
-        res = tlc.run_tlc("Lexer_MC", cfg=cfg, env={"FV_OUT": out}, workers=16, heap="12g", timeout=3000, allow_violation=True, coverage=True)
+        res = tlc.run_tlc("Lexer_MC", cfg=cfg, env={"FV_OUT": out}, workers=16, heap="16g", timeout=3000, allow_violation=True, coverage=True, extra=["-maxSetSize", "40000000"])
         rep.add_tlc(f"Lexer_MC maxlen={maxlen}", res)
         if res.violated:
             rep.violation({"clause": "spec_level:" + ",".join(res.violated), "site": "Lexer.tla Impl layer"}, {"tlc_tail": res.out[-3000:]})
